@@ -12,6 +12,7 @@ import (
 	"encoding/json"
 	"os"
 	"runtime"
+	"strings"
 	"sync"
 	"time"
 
@@ -34,6 +35,18 @@ func main() {
 	// debugging aid (never set by ./check): run one phase only
 	if os.Getenv("C02_ONLY") == "store-level" {
 		runStoreLevel(f, res)
+		lib.Finish(f, res)
+	}
+	if os.Getenv("C02_ONLY") == "fault" {
+		for _, chain := range []int{0, 100} {
+			if fg, err := buildChain(f, chainTask{Chain: chain}); err != nil {
+				res.Fatalf("generator (fault injection): %v", err)
+			} else {
+				for _, dstNew := range []bool{false, true} {
+					runFaultInjection(f, res, fg, dstNew, (len(fg.Bundles)-1)/2)
+				}
+			}
+		}
 		lib.Finish(f, res)
 	}
 	if os.Getenv("C02_ONLY") == "class" {
@@ -192,8 +205,18 @@ func runReplay(f lib.Flags, res *lib.Result) {
 		Replay map[string]any `json:"replay"`
 	}
 	if err := json.Unmarshal(raw, &generic); err == nil {
-		if c, _ := generic.Replay["case"].(string); c == "store-level" || c == "read-fault" {
+		c, _ := generic.Replay["case"].(string)
+		if c == "store-level" || c == "read-fault" {
 			runStoreLevel(f, res)
+			return
+		}
+		// the class-hash phase and the fixture part of the body-length phase are short and deterministic as well
+		if c == "class-definition" || strings.HasPrefix(c, "compiled-class:") {
+			runClassHash(f, res)
+			return
+		}
+		if c == "body-length-fixture" || c == "adapted-counts" {
+			runBodyLenFixtures(f, res)
 			return
 		}
 	}
